@@ -2,7 +2,7 @@
    output is a fixed point.  Only statements here; proofs are in Syntax/SerializerProofs.v and, for the
    fragments, in Syntax/RoundTrip.v + SerializerRoundTrip.v (one-line patterns) and Syntax/RoundTripML.v +
    EntryLoop.v + SerializerLoop.v + SerializerML.v (multi-line patterns) + RoundTripSel.v + SerializerSel.v (select
-   expressions and nested placeables).
+   expressions and nested placeables) + CallArgs.v + SerializerCalls.v (call arguments).
 
    PROVED IN FULL, for ALL trees (not only parser outputs), about Syntax/SerializerModel.v:
      C04_serialize_total          serialize_with_options never panics / always returns
@@ -20,15 +20,20 @@
                                   "{ " selector " ->" LF, one line per variant indented one level deeper with
                                   "*" in the last column of the indentation of the default variant, "[key]" and
                                   the value, then the closing brace on a line of its own at the pattern's
-                                  indentation; a placeable around a placeable as "{{ " ... " }}"),
+                                  indentation; a placeable around a placeable as "{{ " ... " }}"; call arguments
+                                  as "(" argument ", " argument ... ")" directly behind the callee, a named
+                                  argument as name ": " value, "()" when there is none),
      C04_select_contains_parser_outputs   for every tree tj of RoundTripSel.sel_resource d (C02's fragment of depth
                                   d) and EVERY layout cs, the tree the parser returns for render cs tj is in
                                   ssel_resource d
      C04_multiline_in_select      sml_resource (below) is contained in ssel_resource 0
    The fragment ssel_resource d: as sml_resource below, but the patterns join -- at every nesting level -- to a
-   pattern of RoundTripSel.sel_pattern d (placeables of depth d: simple inline expressions, placeables around
-   placeables, select expressions with string/number/variable selector whose variant values are such patterns of
-   depth d-1), and the text elements at every nesting level are non-empty with a line feed only as last byte.
+   pattern of RoundTripSel.sel_pattern d (placeables of depth d: references, literals, function references and
+   term references with CALL ARGUMENTS (positional: references without arguments and literals; named: literals),
+   placeables around placeables, select expressions whose selector is a string/number literal, a variable
+   reference, a function reference with call arguments or a TERM ATTRIBUTE with or without call arguments, and
+   whose variant values are such patterns of depth d-1; see Props/C02.v), and the text elements at every nesting
+   level are non-empty with a line feed only as last byte.
    PROVED FOR THE SUB-FRAGMENT sml_resource (Syntax/SerializerML.v; depth 0), both serializer options:
      C04_roundtrip_multiline_partial   the round trip: the serializer's text parses back, without errors, to a
                                   tree of the fragment with the same normal form (adjacent text elements joined,
@@ -38,10 +43,10 @@
                                   and a value with a line break starts on a new line unless its first byte is
                                   one of . [ * ; every line after a line break is written as LF, 4 spaces (8 in
                                   an attribute) and the line, also when the line is empty)
-     C04_multiline_contains_parser_outputs   for every tree tj of RoundTripSel.sel_resource 0 (the multi-line
-                                  fragment of C02 with simple placeables) and EVERY layout cs of it, the tree the parser returns for
-                                  render cs tj is in the fragment (and joins to tj): the fragment is what the
-                                  parser produces from the sources that C02's fragment describes
+     C04_multiline_contains_parser_outputs   for every tree tj of RoundTripML.ml_resource RoundTripSel.eoks (the
+                                  multi-line fragment of C02, depth 0, WITHOUT call arguments) and EVERY layout
+                                  cs of it, the tree the parser returns for render cs tj is in the fragment (and
+                                  joins to tj): the fragment is what the parser produces from these sources
      C04_simple_in_multiline      the one-line fragment below is a sub-fragment
    The fragment sml_resource: the entries are as in simple_resource below (stand-alone comments, messages and
    terms with or without attached comment, attributes), but the value of a message, term or attribute is a
@@ -51,8 +56,9 @@
        (one text element per line; a blank line inside the value is the text element "LF"; the indentation of
        a line beyond the common one is part of its text element, or a text element of its own in front of a
        placeable), and
-     - the elements joined (adjacent text elements concatenated) form a pattern of RoundTripML.ml_pattern eok0
-       (placeables hold a simple inline expression; select expressions are not yet covered on the C04 side)
+     - the elements joined (adjacent text elements concatenated) form a pattern of RoundTripML.ml_pattern eoks
+       (placeables hold a simple inline expression: a reference without call arguments or a literal; call
+       arguments, select expressions and nested placeables are in ssel_resource above)
        (see Props/C02.v: lines free of '{' '}' CR, continuation lines not starting with . [ *, blank lines
        inside empty, common indentation 0, no leading/trailing space or line break).
    PROVED FOR THE SUB-FRAGMENT simple_resource (Syntax/RoundTrip.v: stand-alone comments of all three levels;
@@ -319,7 +325,7 @@ Proof. intros wj t Ht. destruct (parse_serialize_sml wj t Ht) as (t2 & Es & _). 
 
 (* the fragment contains the parser's output for every layout of every tree of C02's multi-line fragment *)
 Theorem C04_multiline_contains_parser_outputs :
-  forall cs tj, sel_resource 0 tj = true ->
+  forall cs tj, ml_resource eoks tj = true ->
   exists t, parse (render cs tj) = Done (t, []) /\ sml_resource t = true /\ map join_entry t = tj.
 Proof. exact parser_outputs_sml. Qed.
 
@@ -427,6 +433,23 @@ Example C04_example_select_in_fragment :
                   b "            two" ++ LF ++ b "            lines" ++ LF ++ b "       *[other]" ++ LF ++
                   b "            {{ $n }} emails { ""x"" ->" ++ LF ++ b "               *[-1.5] [a]" ++ LF ++
                   b "            }" ++ LF ++ b "    } now" ++ LF).
+Proof. eexists. conj_compute. Qed.
+
+(* a source whose tree is in the fragment of depth 1: call arguments under several layouts (blanks, trailing
+   comma, none at all), a function reference / a term attribute with and without arguments as selectors; its
+   serialization *)
+Example C04_example_calls_in_fragment :
+  let src := b "m = { F( ) } { NUMBER( $n ,  style : ""x"" , ) }" ++ LF ++
+             b "  .a = { PLATFORM() ->" ++ LF ++ b "     [mac] Cmd { -brand( case:""g"") }" ++ LF ++ b "    *[other] Ctrl" ++ LF ++ b "  }" ++ LF ++
+             b "  .g = { -brand.gender ->" ++ LF ++ b "    *[other] it" ++ LF ++ b "  }" ++ LF ++
+             b "  .h = {-brand.gender (case: 1,)->" ++ LF ++ b "    *[x] y" ++ LF ++ b "  }" ++ LF in
+  exists t, parse src = Done (t, []) /\ ssel_resource 1 t = true /\
+            serialize_with_options true t =
+            Done (b "m = { F() } { NUMBER($n, style: ""x"") }" ++ LF ++
+                  b "    .a =" ++ LF ++ b "        { PLATFORM() ->" ++ LF ++ b "            [mac] Cmd { -brand(case: ""g"") }" ++ LF ++
+                  b "           *[other] Ctrl" ++ LF ++ b "        }" ++ LF ++
+                  b "    .g =" ++ LF ++ b "        { -brand.gender ->" ++ LF ++ b "           *[other] it" ++ LF ++ b "        }" ++ LF ++
+                  b "    .h =" ++ LF ++ b "        { -brand.gender(case: 1) ->" ++ LF ++ b "           *[x] y" ++ LF ++ b "        }" ++ LF).
 Proof. eexists. conj_compute. Qed.
 
 (* a select expression with a default variant *)
